@@ -200,6 +200,16 @@ struct cds_lfq_node_rcu *_cds_lfq_dequeue_rcu(struct cds_lfq_queue_rcu *q)
 			enqueue_dummy(q);
 			next = rcu_dereference(head->next);
 		}
+		/*
+		 * Never let head overtake tail: a tail left pointing to
+		 * a dequeued node could be read by an enqueuer whose
+		 * read-side critical section starts after the grace
+		 * period protecting that node has begun. Help a lagging
+		 * tail forward first.
+		 */
+		if (rcu_dereference(q->tail) == head)
+			(void) uatomic_cmpxchg_mo(&q->tail, head, next,
+						CMM_SEQ_CST, CMM_SEQ_CST);
 		if (uatomic_cmpxchg_mo(&q->head, head, next,
 					CMM_SEQ_CST, CMM_SEQ_CST) != head)
 			continue;	/* Concurrently pushed. */
